@@ -124,6 +124,26 @@ def classify(line):
     return None
 
 
+def capsule_arg_intents(lang, problems):
+    """(block name, intent code) of every Fortran argument declared `type({F_capsule_type})` in an
+    effective fc block: 0 OUT (finalised on entry: a reused capsule releases what it held), 1 INOUT, 2 IN, 3 none"""
+    res = []
+    for tab, name, d in dump(lang):
+        if tab != "fc":
+            continue
+        for clause in ("arg_decl", "f_arg_decl"):
+            for text in d.get(clause) or []:
+                for line in text.split("\n"):
+                    if "{F_capsule_type}" not in line:
+                        continue
+                    m = re.search(r"intent\((\w+)\)", line, re.I)
+                    code = {"OUT": 0, "INOUT": 1, "IN": 2}.get(m.group(1).upper(), 9) if m else 3
+                    if code == 9:
+                        problems.append("%s fc %s.%s: unknown intent in %r" % (lang, name, clause, line))
+                    res.append((name, code))
+    return res
+
+
 def rows_for(lang, problems):
     rows = []
     dealloc_flag = dealloc_capsule_registers()
@@ -216,7 +236,7 @@ def nat_list(s):
     return "[" + ", ".join(str(ord(c)) for c in s) + "]"
 
 
-def render(rows):
+def render(rows, capargs):
     L = ["/- GENERATED by tools/extract_capsule.py from the /repo working tree.  Do not edit. -/",
          "namespace Shroud.Gen.Capsule", "",
          "/-- one effective statement block that allocates, frees or hands over memory:",
@@ -245,7 +265,11 @@ def render(rows):
         last = body[-1]
         body[-1] = last.replace("⟩,  --", "⟩   --")
     L += body
-    L += ["]", "", "end Shroud.Gen.Capsule", ""]
+    L += ["]", "",
+          "/-- (block name, intent code) of every Fortran `type(<capsule>)` argument: 0 OUT, 1 INOUT, 2 IN, 3 none -/",
+          "def capsuleArgIntents : List (List Nat × Nat) := [",
+          ",\n".join("  (%s, %d)" % (nat_list(n), c) for n, c in capargs), "]", "",
+          "end Shroud.Gen.Capsule", ""]
     return "\n".join(L)
 
 
@@ -266,9 +290,12 @@ def regenerate():
     rows = rows_for("c", problems) + rows_for("cxx", problems)
     if problems:
         raise Unclassified("\n".join(problems[:20]))
-    text = render(rows)
+    capargs = capsule_arg_intents("c", problems) + capsule_arg_intents("cxx", problems)
+    if problems:
+        raise Unclassified("\n".join(problems[:20]))
+    text = render(rows, capargs)
     changed = write_if_changed(GEN, text)
-    return {"rows": len(rows), "allocating": sum(1 for r in rows if r["allocs"]), "changed": changed,
+    return {"capsule_args": len(capargs), "rows": len(rows), "allocating": sum(1 for r in rows if r["allocs"]), "changed": changed,
             "row_list": rows}
 
 
